@@ -367,8 +367,8 @@ class Interp(Engine):
         if isinstance(base, Obj):
             fn = self.methods.get((base.cls, '__setitem__'))
             if fn is not None:
-                if self.loops:
-                    raise Undecided('object item store inside a symbolic loop')
+                if self.loops and self.is_outer(base):
+                    raise Undecided('item store into an object created outside the symbolic loop')
                 return fn(self, base, idx, v)
         if isinstance(base, SV) and base.kind == 'val':
             if base.frozen or self.loops or (base.app is not None and base.app[0].startswith('attr.')):
